@@ -211,10 +211,10 @@ func dirsSexp(ds []*ast.Directive) sexp.Node {
 		if (n == "skip" || n == "include") && len(d.Arguments) == 1 && d.Arguments[0].Name.Name == "if" {
 			switch v := d.Arguments[0].Value.(type) {
 			case *ast.BooleanValue:
-				out = append(out, sexp.T(n, sexp.T("lit", sexp.Bool(v.Value))))
+				out = append(out, sexp.T(n, sexp.T("lit", sexp.Bool(v.Value)), posSexp(d), posSexp(v)))
 				continue
 			case *ast.Variable:
-				out = append(out, sexp.T(n, sexp.T("var", sexp.Str(v.Name.Name))))
+				out = append(out, sexp.T(n, sexp.T("var", sexp.Str(v.Name.Name)), posSexp(d), posSexp(v)))
 				continue
 			}
 		}
@@ -386,7 +386,7 @@ type caseInput struct {
 	s    *schemaDef
 	text string
 	vars map[string]interface{}
-	env  map[string]bool
+	env  map[string]*bool
 	// outcome tree: built after parsing, from the parsed document
 	mkW func(p parsedDoc) *outcome
 	// the document is not expected to be valid: parse only
@@ -405,7 +405,11 @@ func runCase(in caseInput) sexp.Node {
 	}
 	sort.Strings(vn)
 	for _, v := range vn {
-		envL = append(envL, sexp.L(sexp.Str(v), sexp.Bool(in.env[v])))
+		if b := in.env[v]; b == nil {
+			envL = append(envL, sexp.L(sexp.Str(v), sexp.Sym("null")))
+		} else {
+			envL = append(envL, sexp.L(sexp.Str(v), sexp.Bool(*b)))
+		}
 	}
 	flags := []sexp.Node{}
 	var doc *ast.Document
@@ -489,9 +493,9 @@ func main() {
 	hx.Main(func(h *hx.H) {
 		leafFamily(h)
 		exhaustiveFamily(h)
-		n := 3000
+		n := 20000
 		if h.Thorough() {
-			n = 150000
+			n = 200000
 		}
 		for i := 0; i < n; i++ {
 			h.Case(randomCase)
